@@ -2,6 +2,7 @@ package main
 
 import (
 	"math/rand"
+	"strconv"
 	"strings"
 
 	openfgav1 "github.com/openfga/api/proto/openfga/v1"
@@ -73,6 +74,26 @@ func grammarConform(c *Ctx, stream, text, tree string, nErrs int) {
 	if nErrs > 0 {
 		return
 	}
+	// hypothesis of Props/C03.real_declaration_denotes: every relation declaration of the real tree is,
+	// positions erased, the embedding of a well-formed CST (counted; a declaration outside it stays
+	// covered by the differential walk, not by the theorem)
+	c.D.AddF("hyp:embedding/"+stream, L("embeddings", tree), "", map[string]any{"dsl": text}, func(lean string) bool {
+		x := parseSX(lean)
+		if x.Head() != "embeddings" || len(x.List) != 3 {
+			return false
+		}
+		a, _ := strconv.Atoi(x.List[1].Atom)
+		b, _ := strconv.Atoi(x.List[2].Atom)
+		c.DistN("relation_declarations_in_real_trees", b)
+		c.DistN("of_which_embeddings_of_a_cst", a)
+		if a != b {
+			c.Dist("hypothesis_embedding_false")
+			if c.R.Distribution["hypothesis_embedding_false"] <= 3 {
+				c.Note("a relation declaration of a real parse tree is not the embedding of a CST: " + trunc(text, 300))
+			}
+		}
+		return true
+	})
 	c.Dist("grammar_conformance_checked")
 	c.D.AddF("grammar:conform/"+stream, L("conform", tree), "(conform true)", map[string]any{"dsl": text}, func(lean string) bool {
 		if strings.HasPrefix(lean, "(conform false") {
